@@ -40,16 +40,17 @@ class TapeImageContentInjector(TapeImageWorker):
     ):
         tape = imageManager.image
         for src in args.sources:
-            dotPos = src.rfind(".")
-            fileName = os.path.basename(src.upper())
+            baseName = os.path.basename(src)
+            dotPos = baseName.rfind(".")
+            fileName = baseName.upper()
             fileExtension = ""
             fileType = 2  # binary
             fileMode = 0
             if dotPos > -1:
-                fileName = os.path.basename(src[0:dotPos].upper())
+                fileName = baseName[0:dotPos].upper()
                 if len(fileName) > 8:
                     fileName = fileName[0:8]
-                fileExtension = src[dotPos + 1 :].upper()
+                fileExtension = baseName[dotPos + 1 :].upper()
                 if fileExtension == "BAS,A":
                     fileExtension = "BAS"
                     fileType = 0  # basic
